@@ -1149,14 +1149,30 @@ fn mk_writer(off: u64, ctr: u32, key: Key, prefix: [u8; NONCE_SIZE], pending: [u
     let cipher = crate::crypto::aesgcm::verif_aesgcm::model_build_at(&key, &build_nonce(prefix, ctr), off, pending);
     let rec = Rec::new();
     let inner: InnerWriterType<'static, Rec> = Box::new(rec);
-    EncryptionLayerWriter { inner, cipher, key, nonce_prefix: prefix, current_chunk_offset: off, current_ctr: ctr }
+    // through the real constructor (a field added to the writer is initialised by the code under
+    // check), then moved to the symbolic mid-stream state
+    let cfg = EncryptionConfig { ecc_keys: Vec::new(), key, nonce: prefix };
+    let mut w = match EncryptionLayerWriter::new(inner, &cfg) {
+        Ok(w) => w,
+        Err(e) => {
+            core::mem::forget(e);
+            kani::assume(false);
+            unreachable!()
+        }
+    };
+    core::mem::forget(cfg);
+    let fresh = core::mem::replace(&mut w.cipher, cipher);
+    core::mem::forget(fresh);
+    w.current_chunk_offset = off;
+    w.current_ctr = ctr;
+    w
 }
 /// the writer's sink is behind a trait object: observe it through ghost statics
 static mut W_SINK: *const Rec = core::ptr::null();
 
-//@ props: C01 C06 C07 C13
+//@ props: C01 C06 C07 C13 C14
 //@ scaled: yes
-//@ functions: <layers::encrypt::EncryptionLayerWriter<W> as std::io::Write>::write; build_nonce; AesGcm256::encrypt over model primitives
+//@ functions: <layers::encrypt::EncryptionLayerWriter<W> as std::io::Write>::write; <EncryptionLayerWriter<W> as Write>::flush; build_nonce; AesGcm256::encrypt over model primitives
 //@ bounds: SCALED build (chunk 4, cipher buffer 3); CONCRETE chunk offset 0 and buffer length 0 (one of 11 enumerated size pairs); symbolic data bytes, key, nonce prefix, chunk counter < 2^32-1, pending GHASH bytes
 //@ stubs: AesGcm256::new -> same struct via model constructors; std::io::copy -> single read + write_all; alloc::fmt::format; From<mla::Error> for io::Error; model aes/ctr/ghash
 //@ outside: other (offset, length) pairs at the scaled constants; production buffer sizes (same code, constants differ)
@@ -1171,9 +1187,9 @@ fn h_enc_w_0_0() {
     writer_step_body(0, 0);
 }
 
-//@ props: C01 C06 C07 C13
+//@ props: C01 C06 C07 C13 C14
 //@ scaled: yes
-//@ functions: <layers::encrypt::EncryptionLayerWriter<W> as std::io::Write>::write; build_nonce; AesGcm256::encrypt over model primitives
+//@ functions: <layers::encrypt::EncryptionLayerWriter<W> as std::io::Write>::write; <EncryptionLayerWriter<W> as Write>::flush; build_nonce; AesGcm256::encrypt over model primitives
 //@ bounds: SCALED build (chunk 4, cipher buffer 3); CONCRETE chunk offset 0 and buffer length 1 (one of 11 enumerated size pairs); symbolic data bytes, key, nonce prefix, chunk counter < 2^32-1, pending GHASH bytes
 //@ stubs: AesGcm256::new -> same struct via model constructors; std::io::copy -> single read + write_all; alloc::fmt::format; From<mla::Error> for io::Error; model aes/ctr/ghash
 //@ outside: other (offset, length) pairs at the scaled constants; production buffer sizes (same code, constants differ)
@@ -1188,9 +1204,9 @@ fn h_enc_w_0_1() {
     writer_step_body(0, 1);
 }
 
-//@ props: C01 C06 C07 C13
+//@ props: C01 C06 C07 C13 C14
 //@ scaled: yes
-//@ functions: <layers::encrypt::EncryptionLayerWriter<W> as std::io::Write>::write; build_nonce; AesGcm256::encrypt over model primitives
+//@ functions: <layers::encrypt::EncryptionLayerWriter<W> as std::io::Write>::write; <EncryptionLayerWriter<W> as Write>::flush; build_nonce; AesGcm256::encrypt over model primitives
 //@ bounds: SCALED build (chunk 4, cipher buffer 3); CONCRETE chunk offset 0 and buffer length 3 (one of 11 enumerated size pairs); symbolic data bytes, key, nonce prefix, chunk counter < 2^32-1, pending GHASH bytes
 //@ stubs: AesGcm256::new -> same struct via model constructors; std::io::copy -> single read + write_all; alloc::fmt::format; From<mla::Error> for io::Error; model aes/ctr/ghash
 //@ outside: other (offset, length) pairs at the scaled constants; production buffer sizes (same code, constants differ)
@@ -1205,9 +1221,9 @@ fn h_enc_w_0_3() {
     writer_step_body(0, 3);
 }
 
-//@ props: C01 C06 C07 C13
+//@ props: C01 C06 C07 C13 C14
 //@ scaled: yes
-//@ functions: <layers::encrypt::EncryptionLayerWriter<W> as std::io::Write>::write; build_nonce; AesGcm256::encrypt over model primitives
+//@ functions: <layers::encrypt::EncryptionLayerWriter<W> as std::io::Write>::write; <EncryptionLayerWriter<W> as Write>::flush; build_nonce; AesGcm256::encrypt over model primitives
 //@ bounds: SCALED build (chunk 4, cipher buffer 3); CONCRETE chunk offset 0 and buffer length 6 (one of 11 enumerated size pairs); symbolic data bytes, key, nonce prefix, chunk counter < 2^32-1, pending GHASH bytes
 //@ stubs: AesGcm256::new -> same struct via model constructors; std::io::copy -> single read + write_all; alloc::fmt::format; From<mla::Error> for io::Error; model aes/ctr/ghash
 //@ outside: other (offset, length) pairs at the scaled constants; production buffer sizes (same code, constants differ)
@@ -1222,9 +1238,9 @@ fn h_enc_w_0_6() {
     writer_step_body(0, 6);
 }
 
-//@ props: C01 C06 C07 C13
+//@ props: C01 C06 C07 C13 C14
 //@ scaled: yes
-//@ functions: <layers::encrypt::EncryptionLayerWriter<W> as std::io::Write>::write; build_nonce; AesGcm256::encrypt over model primitives
+//@ functions: <layers::encrypt::EncryptionLayerWriter<W> as std::io::Write>::write; <EncryptionLayerWriter<W> as Write>::flush; build_nonce; AesGcm256::encrypt over model primitives
 //@ bounds: SCALED build (chunk 4, cipher buffer 3); CONCRETE chunk offset 2 and buffer length 1 (one of 11 enumerated size pairs); symbolic data bytes, key, nonce prefix, chunk counter < 2^32-1, pending GHASH bytes
 //@ stubs: AesGcm256::new -> same struct via model constructors; std::io::copy -> single read + write_all; alloc::fmt::format; From<mla::Error> for io::Error; model aes/ctr/ghash
 //@ outside: other (offset, length) pairs at the scaled constants; production buffer sizes (same code, constants differ)
@@ -1239,9 +1255,9 @@ fn h_enc_w_2_1() {
     writer_step_body(2, 1);
 }
 
-//@ props: C01 C06 C07 C13
+//@ props: C01 C06 C07 C13 C14
 //@ scaled: yes
-//@ functions: <layers::encrypt::EncryptionLayerWriter<W> as std::io::Write>::write; build_nonce; AesGcm256::encrypt over model primitives
+//@ functions: <layers::encrypt::EncryptionLayerWriter<W> as std::io::Write>::write; <EncryptionLayerWriter<W> as Write>::flush; build_nonce; AesGcm256::encrypt over model primitives
 //@ bounds: SCALED build (chunk 4, cipher buffer 3); CONCRETE chunk offset 2 and buffer length 6 (one of 11 enumerated size pairs); symbolic data bytes, key, nonce prefix, chunk counter < 2^32-1, pending GHASH bytes
 //@ stubs: AesGcm256::new -> same struct via model constructors; std::io::copy -> single read + write_all; alloc::fmt::format; From<mla::Error> for io::Error; model aes/ctr/ghash
 //@ outside: other (offset, length) pairs at the scaled constants; production buffer sizes (same code, constants differ)
@@ -1256,9 +1272,9 @@ fn h_enc_w_2_6() {
     writer_step_body(2, 6);
 }
 
-//@ props: C01 C06 C07 C13
+//@ props: C01 C06 C07 C13 C14
 //@ scaled: yes
-//@ functions: <layers::encrypt::EncryptionLayerWriter<W> as std::io::Write>::write; build_nonce; AesGcm256::encrypt over model primitives
+//@ functions: <layers::encrypt::EncryptionLayerWriter<W> as std::io::Write>::write; <EncryptionLayerWriter<W> as Write>::flush; build_nonce; AesGcm256::encrypt over model primitives
 //@ bounds: SCALED build (chunk 4, cipher buffer 3); CONCRETE chunk offset 3 and buffer length 1 (one of 11 enumerated size pairs); symbolic data bytes, key, nonce prefix, chunk counter < 2^32-1, pending GHASH bytes
 //@ stubs: AesGcm256::new -> same struct via model constructors; std::io::copy -> single read + write_all; alloc::fmt::format; From<mla::Error> for io::Error; model aes/ctr/ghash
 //@ outside: other (offset, length) pairs at the scaled constants; production buffer sizes (same code, constants differ)
@@ -1273,9 +1289,9 @@ fn h_enc_w_3_1() {
     writer_step_body(3, 1);
 }
 
-//@ props: C01 C06 C07 C13
+//@ props: C01 C06 C07 C13 C14
 //@ scaled: yes
-//@ functions: <layers::encrypt::EncryptionLayerWriter<W> as std::io::Write>::write; build_nonce; AesGcm256::encrypt over model primitives
+//@ functions: <layers::encrypt::EncryptionLayerWriter<W> as std::io::Write>::write; <EncryptionLayerWriter<W> as Write>::flush; build_nonce; AesGcm256::encrypt over model primitives
 //@ bounds: SCALED build (chunk 4, cipher buffer 3); CONCRETE chunk offset 3 and buffer length 5 (one of 11 enumerated size pairs); symbolic data bytes, key, nonce prefix, chunk counter < 2^32-1, pending GHASH bytes
 //@ stubs: AesGcm256::new -> same struct via model constructors; std::io::copy -> single read + write_all; alloc::fmt::format; From<mla::Error> for io::Error; model aes/ctr/ghash
 //@ outside: other (offset, length) pairs at the scaled constants; production buffer sizes (same code, constants differ)
@@ -1785,6 +1801,12 @@ fn writer_step_body(off: u64, blen: usize) {
     kani::cover!(ctr > 0, "later chunk");
     kani::cover!(ctr == 0, "first chunk");
     let r = w.write(&data[..blen]);
+    // what was accepted must have reached the sink once flush() returns (a writer may gather bytes
+    // between the two calls)
+    let fr = w.flush();
+    let flushed = fr.is_ok();
+    core::mem::forget(fr);
+    assert!(flushed, "flush on a healthy sink fails");
     let rolled = off == SPEC_CHUNK;
     let off1 = if rolled { 0 } else { off };
     let want_n = core::cmp::min(core::cmp::min(3, blen as u64), SPEC_CHUNK - off1);
@@ -1796,7 +1818,8 @@ fn writer_step_body(off: u64, blen: usize) {
             // what reached the sink
             let sink: &Rec = unsafe { &*(&*w.inner as *const dyn LayerWriter<'static, Rec> as *const Rec) };
             let tag_len: u64 = if rolled { 16 } else { 0 };
-            assert!(sink.n == tag_len + want_n, "sink receives the tag of the finished chunk (16 bytes) then exactly the accepted bytes");
+            assert!(sink.n == tag_len + want_n, "after write + flush the sink holds the tag of the finished chunk (16 bytes) then exactly the accepted bytes");
+            assert!(sink.flushes >= 1, "flush is forwarded to the inner writer");
             // every forwarded data byte is plaintext XOR keystream(key, nonce || ctr', 16 + offset)
             let c_ref = model_build(&key, &build_nonce(prefix, ctr + rolled as u32));
             let mut i = 0usize;
@@ -1962,4 +1985,58 @@ fn h_enc_nonce() {
     }
     assert!(n[8] == (ctr >> 24) as u8 && n[9] == (ctr >> 16) as u8 && n[10] == (ctr >> 8) as u8 && n[11] == ctr as u8, "followed by the chunk index, big-endian");
     assert!(NONCE_SIZE == 8 && n.len() == 12, "96-bit GCM nonce = 64-bit archive nonce || 32-bit counter");
+}
+
+// ------------------------------------------------------------------------------------------
+// Writer-side configuration: recipients accumulate; the header's ephemeral key comes from OS
+// entropy drawn when the header is produced (C07)
+// ------------------------------------------------------------------------------------------
+//@ props: C07
+//@ functions: ArchiveWriterConfig::add_public_keys; EncryptionConfig::to_persistent; crypto::ecc::store_key_for_multi_recipients (over model primitives)
+//@ bounds: recipients handed over in two calls (1 + 1, ANY public keys); ANY symmetric key, archive nonce and OS entropy
+//@ stubs: model rand / rand_chacha (OS entropy = ghost symbolic array, seeding from a fixed seed is counted), model x25519 / HKDF / aes / ctr / ghash; alloc::fmt::format
+//@ outside: more than two calls / recipients (same loop); statistical quality of the OS generator
+//@ replay: verif_replay_ecc::cfg_recipients_and_header
+//@ timeout: 1500
+#[kani::proof]
+#[kani::unwind(34)]
+#[kani::stub(alloc::fmt::format, nofmt)]
+fn h_enc_cfg_recipients_header() {
+    let p0: [u8; 32] = kani::any();
+    let p1: [u8; 32] = kani::any();
+    let key: Key = kani::any();
+    let nonce: [u8; NONCE_SIZE] = kani::any();
+    let ent: [u8; 32] = kani::any();
+    let mut cfg = ArchiveWriterConfig::new();
+    cfg.encrypt.key = key;
+    cfg.encrypt.nonce = nonce;
+    cfg.add_public_keys(&[PublicKey::from(p0)]);
+    cfg.add_public_keys(&[PublicKey::from(p1)]);
+    assert!(cfg.encrypt.ecc_keys.len() == 2, "recipients added in turn are all kept");
+    assert!(*cfg.encrypt.ecc_keys[0].as_bytes() == p0 && *cfg.encrypt.ecc_keys[1].as_bytes() == p1, "recipients are kept in the order given");
+    unsafe {
+        rand::ghost::OS_ENTROPY[0] = ent;
+        rand::ghost::OS_CALLS = 0;
+        rand::ghost::FIXED_SEEDS = 0;
+    }
+    let r = cfg.encrypt.to_persistent();
+    match r {
+        Ok(p) => {
+            unsafe {
+                assert!(rand::ghost::OS_CALLS == 1, "producing the header draws fresh OS entropy for the ephemeral scalar");
+                assert!(rand::ghost::FIXED_SEEDS == 0, "the ephemeral scalar's generator is not seeded from a value the archive already holds");
+            }
+            let eph_pub = PublicKey::from(&StaticSecret::from(ent));
+            assert!(crate::crypto::ecc::verif_ecc::persist_public(&p.multi_recipient) == *eph_pub.as_bytes(), "header carries the public key of a scalar taken from the fresh OS entropy");
+            assert!(crate::crypto::ecc::verif_ecc::persist_count(&p.multi_recipient) == 2, "one wrapped key per recipient");
+            assert!(p.nonce == nonce, "header carries the archive nonce");
+            kani::cover!(true, "header produced");
+            core::mem::forget(p);
+        }
+        Err(e) => {
+            core::mem::forget(e);
+            assert!(false, "header production fails");
+        }
+    }
+    core::mem::forget(cfg);
 }
